@@ -37,6 +37,53 @@ type dbLayout struct {
 	UserVersion int             `json:"user_version"`
 	Rows        bool            `json:"rows"`
 	RowSeed     int64           `json:"row_seed,omitempty"`
+	// Unclean: the process that wrote the layout stopped without closing the database: schema
+	// and rows are committed, but sit in the write-ahead log next to the main file
+	Unclean bool `json:"left_by_a_process_that_did_not_close_it,omitempty"`
+}
+
+// buildUncleanLayout leaves <dir>/sqlite3/{db,db-wal} the way a writer that is killed after its
+// last commit leaves them: a second connection keeps the database open while the layout is
+// written (so closing the writer does not checkpoint), the two files are copied, then
+// everything is closed. Returns false if no frames were left in the log.
+func buildUncleanLayout(dir string, l dbLayout) bool {
+	initSqlite()
+	live := dir + ".live"
+	defer os.RemoveAll(live)
+	dbDir := filepath.Join(live, "sqlite3")
+	if err := os.MkdirAll(dbDir, 0o750); err != nil {
+		panic(err)
+	}
+	holder, err := sql.Open("sqlite3", sqliteDSN(filepath.Join(dbDir, "db")))
+	if err != nil {
+		panic(err)
+	}
+	defer holder.Close()
+	holder.SetMaxOpenConns(1)
+	var n int
+	if err := holder.QueryRow("SELECT count(*) FROM sqlite_master").Scan(&n); err != nil {
+		panic(err)
+	}
+	buildLayout(live, l)
+	wal, err := os.ReadFile(filepath.Join(dbDir, "db-wal"))
+	if err != nil || len(wal) == 0 {
+		return false
+	}
+	main, err := os.ReadFile(filepath.Join(dbDir, "db"))
+	if err != nil {
+		panic(err)
+	}
+	out := filepath.Join(dir, "sqlite3")
+	if err := os.MkdirAll(out, 0o750); err != nil {
+		panic(err)
+	}
+	if err := os.WriteFile(filepath.Join(out, "db"), main, 0o640); err != nil {
+		panic(err)
+	}
+	if err := os.WriteFile(filepath.Join(out, "db-wal"), wal, 0o640); err != nil {
+		panic(err)
+	}
+	return true
 }
 
 func (l dbLayout) all() bool {
@@ -80,6 +127,9 @@ func (l dbLayout) String() string {
 	}
 	if l.Index {
 		present = append(present, "idx_hash")
+	}
+	if l.Unclean {
+		return fmt.Sprintf("uv=%d rows=%v objects=%v seed=%d left-unclosed", l.UserVersion, l.Rows, present, l.RowSeed)
 	}
 	return fmt.Sprintf("uv=%d rows=%v objects=%v seed=%d", l.UserVersion, l.Rows, present, l.RowSeed)
 }
@@ -263,8 +313,8 @@ func TestC24(t *testing.T) {
 	const id = "C24"
 	rec := ev.New(t, id)
 	rec.Exhaustive(true)
-	rec.Rule("exhaustive product: each of the four v1 tables and idx_hash present or absent (an idx_hash without key_trackers is built on a foreign table) x user_version ∈ {0,1,2} x {no rows, generated rows} = 192 layouts (plus 'no file at all'), built with the same driver and DSN as the store (WAL mode, frozen GORM DDL); the thorough tier adds 20 generated row sets per layout. Oracle: if sqlite3.New succeeds, user_version = 1, all four tables and idx_hash exist afterwards and every pre-existing row of every pre-existing table is unchanged (SQL dump); if it refuses, the SQL dump (schema, rows, user_version) and the bytes of the main database file are unchanged. Non-trivial: the layout is neither fresh nor fully migrated. Distinct = distinct layouts (incl. row seed).")
-	rec.Assume("the database file was last closed cleanly (no pending WAL frames)", "row sets are a consistent tracker/entry data set with chord.Hash identifiers")
+	rec.Rule("exhaustive product: each of the four v1 tables and idx_hash present or absent (an idx_hash without key_trackers is built on a foreign table) x user_version ∈ {0,1,2} x {no rows, generated rows} = 192 layouts (plus 'no file at all'), built with the same driver and DSN as the store (WAL mode, frozen GORM DDL); the thorough tier adds 20 generated row sets per layout. Every layout is presented twice: closed cleanly, and as the files (db, db-wal) of a writer that stopped after its last commit without closing the database, so that schema and rows sit in the write-ahead log. Oracle: if sqlite3.New succeeds, user_version = 1, all four tables and idx_hash exist afterwards and every pre-existing row of every pre-existing table is unchanged (SQL dump); if it refuses, the SQL dump (schema, rows, user_version) and the bytes of the main database file are unchanged. Non-trivial: the layout is neither fresh nor fully migrated. Distinct = distinct layouts (incl. row seed).")
+	rec.Assume("row sets are a consistent tracker/entry data set with chord.Hash identifiers")
 	base := fastBase(t)
 	initSqlite()
 	seedBase := ev.ShardSeed()
@@ -305,12 +355,31 @@ func TestC24(t *testing.T) {
 		var before *dbDump
 		var bytesBefore []byte
 		if !noFile {
-			buildLayout(dir, *l)
 			label = "class:" + l.class()
 			desc = l.String()
 			var err error
-			if before, err = dumpDB(dbPath); err != nil {
-				t.Fatalf("harness: cannot dump the layout %s: %v", desc, err)
+			if l.Unclean {
+				if !buildUncleanLayout(dir, *l) {
+					rec.Inconclusive("no-frames-left-in-the-write-ahead-log")
+					return
+				}
+				// the reference dump is taken from a copy: reading the database with the driver
+				// recovers and checkpoints the log
+				ref := scratchDir(base, "c24ref")
+				defer os.RemoveAll(ref)
+				os.MkdirAll(filepath.Join(ref, "sqlite3"), 0o750)
+				for _, f := range []string{"db", "db-wal"} {
+					b, _ := os.ReadFile(filepath.Join(dir, "sqlite3", f))
+					os.WriteFile(filepath.Join(ref, "sqlite3", f), b, 0o640)
+				}
+				if before, err = dumpDB(filepath.Join(ref, "sqlite3", "db")); err != nil {
+					t.Fatalf("harness: cannot dump the layout %s: %v", desc, err)
+				}
+			} else {
+				buildLayout(dir, *l)
+				if before, err = dumpDB(dbPath); err != nil {
+					t.Fatalf("harness: cannot dump the layout %s: %v", desc, err)
+				}
 			}
 			if bytesBefore, err = os.ReadFile(dbPath); err != nil {
 				t.Fatalf("harness: %v", err)
@@ -346,7 +415,12 @@ func TestC24(t *testing.T) {
 			res = "refused"
 		}
 		outcome[strings.TrimPrefix(label, "class:")+":"+res]++
-		rec.Case(nt, desc, func() any { return map[string]any{"layout": desc, "result": res, "error": fmt.Sprint(err)} }, label, "result:"+res)
+		if !noFile && l.Unclean {
+			label2 := "left-unclosed-by-previous-process"
+			rec.Case(nt, desc, func() any { return map[string]any{"layout": desc, "result": res, "error": fmt.Sprint(err)} }, label, "result:"+res, label2)
+		} else {
+			rec.Case(nt, desc, func() any { return map[string]any{"layout": desc, "result": res, "error": fmt.Sprint(err)} }, label, "result:"+res)
+		}
 		doc["result"], doc["error"] = res, fmt.Sprint(err)
 		if before != nil {
 			doc["before"] = before
@@ -361,6 +435,9 @@ func TestC24(t *testing.T) {
 				rec.Fail(t, "sqlite-refused-open-modified-database", doc, "sqlite3.New refused %s (%v) but changed it: %s", desc, err, why)
 			}
 			bytesAfter, rerr := os.ReadFile(dbPath)
+			if l.Unclean {
+				return // recovering the log may legitimately fold it into the main file
+			}
 			if rerr != nil || !bytes.Equal(bytesBefore, bytesAfter) {
 				rec.Fail(t, "sqlite-refused-open-modified-file-bytes", doc, "sqlite3.New refused %s (%v) but the main database file is not byte-identical (%d -> %d bytes, %v)", desc, err, len(bytesBefore), len(bytesAfter), rerr)
 			}
@@ -425,6 +502,15 @@ func TestC24(t *testing.T) {
 	}
 	for i := range layouts {
 		check(&layouts[i], false)
+	}
+	// the same layouts, left behind by a process that stopped without closing the database
+	for i := range layouts {
+		if layouts[i].none() && !layouts[i].Rows && layouts[i].UserVersion == 0 {
+			continue // nothing was ever written
+		}
+		u := layouts[i]
+		u.Unclean = true
+		check(&u, false)
 	}
 	for k, v := range outcome {
 		rec.Add("outcome:"+k, int64(v))
